@@ -1265,4 +1265,406 @@ theorem scrub_str_rgb {s : Str} {ts : List Str} (hs : ';' ∉ s) (hp : '(' ∈ s
   rw [scrub_str_eq, scrubString_single hne hb hs]
   simp [scrubDirective, hl, h, bind, Except.bind, pure, Except.pure, combineInts_settings]
 
+/-! ## integers given as text -/
+
+theorem parseDigitsU_some : ∀ (ds : Str) (acc : Nat), (∀ c ∈ ds, Py.isDigit c = true) →
+    Py.parseDigitsU ds (some acc) false = some (ds.foldl (fun n c => 10 * n + (c.toNat - '0'.toNat)) acc)
+  | [], acc, _ => by simp [Py.parseDigitsU]
+  | d :: ds, acc, h => by
+    have hd := h d (by simp)
+    simp only [Py.parseDigitsU, hd, if_true, Option.getD_some, List.foldl_cons]
+    exact parseDigitsU_some ds _ (fun c hc => h c (List.mem_cons_of_mem _ hc))
+
+theorem parseDigitsU_digits {ds : Str} (hne : ds ≠ []) (h : ∀ c ∈ ds, Py.isDigit c = true) :
+    Py.parseDigitsU ds none false = some (Py.digitsVal ds) := by
+  cases ds with
+  | nil => exact absurd rfl hne
+  | cons d ds =>
+    have hd := h d (by simp)
+    simp only [Py.parseDigitsU, hd, if_true, Option.getD_none, Py.digitsVal, List.foldl_cons]
+    exact parseDigitsU_some ds _ (fun c hc => h c (List.mem_cons_of_mem _ hc))
+
+theorem int_digits {ds : Str} (hne : ds ≠ []) (h : ∀ c ∈ ds, Py.isDigit c = true) :
+    Py.int ds = some (Py.digitsVal ds : Int) := by
+  unfold Py.int
+  rw [strip_digits h]
+  cases ds with
+  | nil => exact absurd rfl hne
+  | cons d ds' =>
+    have hd := h d (by simp)
+    have h1 : d ≠ '+' := by intro e; rw [e] at hd; revert hd; decide
+    have h2 : d ≠ '-' := by intro e; rw [e] at hd; revert hd; decide
+    split
+    · rename_i heq; injection heq with e1 _; exact absurd e1 h1
+    · rename_i heq; injection heq with e1 _; exact absurd e1 h2
+    · rw [parseDigitsU_digits hne h]; rfl
+
+/-- no AnsiFormat name starts with a decimal digit (one linear pass) -/
+def namesNoDigitStart (l : List (Str × List Str)) : Bool :=
+  l.all (fun r => match r.1 with | c :: _ => !Py.isDigit c | [] => true)
+
+set_option maxRecDepth 100000 in
+theorem table_no_digit_start : namesNoDigitStart Gen.formatTable = true := by scrubl_table_decide
+
+theorem lookup_none_of_digit_head {n : Str} {c : Char} (hc : n.head? = some c) (hd : Py.isDigit c = true) :
+    lookupFormat n = none := by
+  cases h : lookupFormat n with
+  | none => rfl
+  | some ts =>
+    unfold lookupFormat at h
+    cases hf : Gen.formatTable.find? (fun r => r.1 == n) with
+    | none => simp [hf] at h
+    | some r =>
+      have h1 : r.1 = n := by simpa using List.find?_some hf
+      have h2 := List.mem_of_find?_eq_some hf
+      have h3 := table_no_digit_start
+      simp only [namesNoDigitStart, List.all_eq_true] at h3
+      have := h3 r h2
+      rw [h1] at this
+      cases n with
+      | nil => simp at hc
+      | cons c' n' =>
+        simp only [List.head?_cons, Option.some.injEq] at hc; subst hc
+        simp [hd] at this
+
+theorem normChar_digit {c : Char} (h : Py.isDigit c = true) : normChar c = c :=
+  normChar_variant c c (by simp [isNameChar, Py.isDigit] at h ⊢; simp [h])
+    (fun _ => Or.inl rfl) (fun e => by rw [e] at h; exact absurd h (by decide)) (fun _ => rfl)
+
+theorem normName_digits {ds : Str} (h : ∀ c ∈ ds, Py.isDigit c = true) : normName ds = ds := by
+  rw [normName_eq_map]
+  conv => rhs; rw [← List.map_id ds]
+  exact List.map_congr_left (fun c hc => normChar_digit (h c hc))
+
+/-- `_parse_rgb_string` returns None on a string that cannot start any of the patterns -/
+theorem parseRgb_none_of_head {s : Str}
+    (h : ∀ c, s.head? = some c → c ≠ 'f' ∧ c ≠ 'b' ∧ c ≠ 'u' ∧ c ≠ 'd' ∧ c ≠ 'r' ∧ c ≠ 'c') :
+    parseRgbString s = none := by
+  have h' : ∀ c, s.head? = some c → c ≠ 'f' ∧ c ≠ 'b' ∧ c ≠ 'u' ∧ c ≠ 'd' :=
+    fun c hc => ⟨(h c hc).1, (h c hc).2.1, (h c hc).2.2.1, (h c hc).2.2.2.1⟩
+  have e1 : "rgb(".toList = ['r','g','b','('] := by simp only [strLitToList]
+  have e2 : "colo".toList = ['c','o','l','o'] := by simp only [strLitToList]
+  have t : ∀ (w : Str) (w0 : Char) (w' : Str) (X : Re) (caps : Caps), w = w0 :: w' →
+      (∀ c, s.head? = some c → c ≠ w0) → m (.seq (lit w) X) s caps k0 = none := by
+    intro w w0 w' X caps hw hc
+    subst hw
+    cases s with
+    | nil => simp [m_seq, lit, m_cls_nil]
+    | cons c rest =>
+      have : (c == w0) = false := by simpa using hc c rfl
+      simp [m_seq, lit, m_cls_cons, this]
+  have r3 : matchStart reRgb3 s = none := by
+    show m reRgb3 s [] k0 = none
+    rw [reRgb3_eq, m_seq, m_rePrefix_none s _ _ h']
+    exact t _ 'r' _ _ _ e1 (fun c hc => (h c hc).2.2.2.2.1)
+  have r1 : matchStart reRgb1 s = none := by
+    show m reRgb1 s [] k0 = none
+    rw [reRgb1_eq, m_seq, m_rePrefix_none s _ _ h']
+    exact t _ 'r' _ _ _ e1 (fun c hc => (h c hc).2.2.2.2.1)
+  have rc : matchStart reColor s = none := by
+    show m reColor s [] k0 = none
+    rw [reColor_eq, m_seq, m_rePrefix_none s _ _ h']
+    exact t _ 'c' _ _ _ e2 (fun c hc => (h c hc).2.2.2.2.2)
+  simp [parseRgbString, r3, r1, rc]
+
+theorem digit_head_facts {c : Char} (h : Py.isDigit c = true) :
+    c ≠ 'f' ∧ c ≠ 'b' ∧ c ≠ 'u' ∧ c ≠ 'd' ∧ c ≠ 'r' ∧ c ≠ 'c' := by
+  refine ⟨?_, ?_, ?_, ?_, ?_, ?_⟩ <;> (intro e; rw [e] at h; revert h; decide)
+
+/-- a directive that is a run of decimal digits is that integer -/
+theorem scrubDirective_digits {ds : Str} (hne : ds ≠ []) (h : ∀ c ∈ ds, Py.isDigit c = true) :
+    scrubDirective ds = .ok [.int (Py.digitsVal ds : Int)] := by
+  have hhead : ∀ c, ds.head? = some c → Py.isDigit c = true := fun c hc => h c (List.mem_of_mem_head? hc)
+  have hl : lookupFormat (normName ds) = none := by
+    rw [normName_digits h]
+    cases ds with
+    | nil => exact absurd rfl hne
+    | cons d r => exact lookup_none_of_digit_head rfl (h d (by simp))
+  have hp : parseRgbString ds = none := parseRgb_none_of_head (fun c hc => digit_head_facts (hhead c hc))
+  have he : ds.isEmpty = false := by cases ds <;> simp_all
+  have hnn : ¬ ((Py.digitsVal ds : Int) < 0) := by omega
+  simp [scrubDirective, hl, hp, he, int_digits hne h, hnn]
+
+/-! ## several directives -/
+
+/-- the directive loop of `_scrub_ansi_format_string` -/
+def scrubDirectives : List Str → Except PyErr (List SOut)
+  | [] => .ok []
+  | f :: fs => do
+    let r ← scrubDirective f
+    let rs ← scrubDirectives fs
+    pure (r ++ rs)
+
+theorem foldlM_directives : ∀ (fs : List Str) (acc : List SOut),
+    fs.foldlM (fun acc fmt => do let r ← scrubDirective fmt; pure (acc ++ r)) acc =
+      (do let rs ← scrubDirectives fs; pure (acc ++ rs))
+  | [], acc => by simp [scrubDirectives, bind, Except.bind, pure, Except.pure]
+  | f :: fs, acc => by
+    simp only [List.foldlM_cons, scrubDirectives]
+    cases hd : scrubDirective f with
+    | error e => simp [bind, Except.bind]
+    | ok r =>
+      simp only [bind, Except.bind, pure, Except.pure]
+      have := foldlM_directives fs (acc ++ r)
+      simp only [bind, Except.bind, pure, Except.pure] at this
+      rw [this]
+      cases scrubDirectives fs <;> simp
+
+theorem scrubString_eq_directives {s : Str} (hne : s ≠ []) (hb : s.head? ≠ some '[') :
+    scrubString s = scrubDirectives (Py.splitOnChar ';' s) := by
+  cases s with
+  | nil => exact absurd rfl hne
+  | cons c rest =>
+    have hc : c ≠ '[' := fun h => hb (by simp [h])
+    unfold scrubString
+    split
+    · rename_i h; cases h
+    · rename_i h; injection h with h1 h2; exact absurd h1 hc
+    · rw [foldlM_directives]
+      cases scrubDirectives (Py.splitOnChar ';' (c :: rest)) <;> simp [bind, Except.bind, pure, Except.pure]
+
+/- NB: `scrubDirective`/`lookupFormat` must never be unfolded on a *closed* argument inside a proof
+   term: the kernel would then evaluate the lookup over `Gen.formatTable`, including the UTF-8
+   decoding of all its string literals (~30 s).  Hence the detour through a variable. -/
+theorem scrubDirective_nil' (s : Str) (hs : s = []) : scrubDirective s = .ok [] := by
+  have hl : lookupFormat (normName s) = none := by
+    cases h : lookupFormat (normName s) with
+    | none => rfl
+    | some ts => subst hs; exact absurd rfl (lookup_some_chars h).1
+  have hp : parseRgbString s = none := parseRgb_none_of_head (fun c hc => by subst hs; simp at hc)
+  have he : s.isEmpty = true := by subst hs; rfl
+  unfold scrubDirective
+  rw [hl, hp]
+  simp only [he, if_true]
+
+theorem scrubDirective_nil : scrubDirective [] = .ok [] := scrubDirective_nil' [] rfl
+
+theorem scrubDirectives_cons (f : Str) (fs : List Str) :
+    scrubDirectives (f :: fs) = (do let r ← scrubDirective f; let rs ← scrubDirectives fs; pure (r ++ rs)) := by
+  rw [scrubDirectives]
+
+theorem scrubDirectives_nil : scrubDirectives [] = .ok [] := by rw [scrubDirectives]
+
+theorem scrubString_as_directives {s : Str} (hb : s.head? ≠ some '[') :
+    scrubString s = scrubDirectives (Py.splitOnChar ';' s) := by
+  cases s with
+  | nil =>
+    have e : Py.splitOnChar ';' [] = [[]] := rfl
+    have e2 : scrubString [] = .ok [] := rfl
+    rw [e, e2, scrubDirectives_cons, scrubDirectives_nil, scrubDirective_nil]
+    rfl
+  | cons c r => exact scrubString_eq_directives (by simp) hb
+
+theorem scrubString_multi {a b : Str} (hne : a ≠ []) (hb : a.head? ≠ some '[') (hs : ';' ∉ a) :
+    scrubString (a ++ ';' :: b) =
+      (do let r ← scrubDirective a; let rs ← scrubDirectives (Py.splitOnChar ';' b); pure (r ++ rs)) := by
+  have h1 : a ++ ';' :: b ≠ [] := by simp
+  have h2 : (a ++ ';' :: b).head? ≠ some '[' := by
+    cases a with
+    | nil => exact absurd rfl hne
+    | cons c r => simpa using hb
+  rw [scrubString_eq_directives h1 h2, splitOnChar_append ';' a b hs, scrubDirectives_cons]
+
+theorem scrubDirectives_digits : ∀ (l : List Nat),
+    scrubDirectives (l.map Py.natStr) = .ok (l.map (fun (n : Nat) => SOut.int (n : Int)))
+  | [] => rfl
+  | n :: l => by
+    simp [scrubDirectives, scrubDirective_digits (natStr_ne_nil n) (natStr_all n), digitsVal_natStr,
+      scrubDirectives_digits l, bind, Except.bind, pure, Except.pure]
+
+theorem scrubItems_ints : ∀ (l : List Nat),
+    scrubItems (l.map (fun (n : Nat) => SArg.int (n : Int))) = .ok (l.map (fun (n : Nat) => SOut.int (n : Int)))
+  | [] => rfl
+  | n :: l => by
+    have : ¬ ((n : Int) < 0) := by omega
+    simp [scrubItems, scrubItem, this, scrubItems_ints l, bind, Except.bind, pure, Except.pure]
+
+theorem joinNats_head {l : List Nat} (h : l ≠ []) : ∀ c, (joinNats l).head? = some c → Py.isDigit c = true := by
+  intro c hc
+  match l, h with
+  | [n], _ => exact natStr_all n c (List.mem_of_mem_head? hc)
+  | n :: n' :: r, _ =>
+    simp only [joinNats, List.map_cons, joinSep] at hc
+    rw [List.append_assoc] at hc
+    exact natStr_all n c (head?_append_mem (natStr_ne_nil n) hc)
+
+/-- codes written as one `;`-separated string ≡ the same codes given as a list of ints -/
+theorem scrub_codes_string {l : List Nat} (h : l ≠ []) :
+    scrub (.str (joinNats l)) = scrub (.list (l.map (fun (n : Nat) => SArg.int (n : Int)))) := by
+  have hb : (joinNats l).head? ≠ some '[' := by
+    intro e; have := joinNats_head h _ e; revert this; decide
+  have hsplit : Py.splitOnChar ';' (joinNats l) = l.map Py.natStr := by
+    unfold joinNats
+    exact split_joinSep _ (by simpa using h) (by
+      intro x hx; obtain ⟨n, _, rfl⟩ := List.mem_map.1 hx; exact semi_not_mem_natStr n)
+  rw [scrub_str_eq, scrubString_as_directives hb, hsplit, scrubDirectives_digits]
+  simp [scrub, scrubItems_ints]
+
+/-! ## nesting -/
+
+theorem scrubItem_list_of_settings {l : List SArg} {ts : List Str}
+    (h : scrubItems l = .ok (ts.map SOut.setting)) : scrubItem (.list l) = scrubItems l := by
+  simp [scrubItem, h, bind, Except.bind, pure, Except.pure, combineInts_settings]
+
+theorem scrub_nested_singleton (l : List SArg) : scrub (.list [.list l]) = scrub (.list l) := by
+  simp only [scrub, scrubItems, scrubItem]
+  cases scrubItems l with
+  | error e => rfl
+  | ok r => simp [bind, Except.bind, pure, Except.pure, combineInts_settings]
+
+theorem normName_cons (c : Char) (cs : Str) : normName (c :: cs) = normChar c :: normName cs := rfl
+
+/-- what a string that normalises to an AnsiFormat name looks like -/
+theorem name_string_facts {v name : Str} (h : normName v = name) (hne : name ≠ [])
+    (hc : ∀ c ∈ name, isNameChar c = true) : v ≠ [] ∧ v.head? ≠ some '[' ∧ ';' ∉ v := by
+  refine ⟨?_, ?_, ?_⟩
+  · intro e; subst e; exact hne h.symm
+  · intro e
+    cases v with
+    | nil => simp at e
+    | cons c cs =>
+      simp only [List.head?_cons, Option.some.injEq] at e; subst e
+      rw [normName_cons] at h
+      have := hc (normChar '[') (by rw [← h]; simp)
+      revert this; decide
+  · intro e
+    have : normChar ';' ∈ normName v := by rw [normName_eq_map]; exact List.mem_map.2 ⟨';', e, rfl⟩
+    rw [h] at this
+    have := hc _ this
+    revert this; decide
+
+/-! ## assembling `scrubDirective` / `scrub` results from facts about a (possibly closed) string
+    without letting the kernel evaluate the table lookup -/
+
+theorem lookup_none_of_all_ne {n : Str} (h : Gen.formatTable.all (fun r => r.1 != n) = true) :
+    lookupFormat n = none := by
+  unfold lookupFormat
+  rw [List.all_eq_true] at h
+  have : Gen.formatTable.find? (fun r => r.1 == n) = none := by
+    rw [List.find?_eq_none]
+    intro r hr
+    have := h r hr
+    simpa using this
+  rw [this]; rfl
+
+theorem scrubDirective_unknown (s : Str) (hl : lookupFormat (normName s) = none)
+    (hp : parseRgbString s = none) (he : s.isEmpty = false) (hi : Py.int s = none) :
+    scrubDirective s = .error .valueError := by
+  unfold scrubDirective; rw [hl, hp]; simp only [he, hi]; rfl
+
+theorem scrubDirective_negative (s : Str) (i : Int) (hl : lookupFormat (normName s) = none)
+    (hp : parseRgbString s = none) (he : s.isEmpty = false) (hi : Py.int s = some i) (hneg : i < 0) :
+    scrubDirective s = .error .valueError := by
+  unfold scrubDirective; rw [hl, hp]; simp only [he, hi, hneg]; rfl
+
+theorem scrubDirective_rgb_error (s : Str) (e : PyErr) (hl : lookupFormat (normName s) = none)
+    (hp : parseRgbString s = some (.error e)) : scrubDirective s = .error e := by
+  unfold scrubDirective; rw [hl, hp]
+
+theorem scrub_str_single_error (s : Str) (e : PyErr) (hne : s ≠ []) (hb : s.head? ≠ some '[') (hs : ';' ∉ s)
+    (h : scrubDirective s = .error e) : scrub (.str s) = .error e := by
+  rw [scrub_str_eq, scrubString_single hne hb hs, h]; rfl
+
+theorem scrub_str_multi_error_snd (a b : Str) (e : PyErr) (ra : List SOut) (hne : a ≠ [])
+    (hb : a.head? ≠ some '[') (hs : ';' ∉ a) (hs' : ';' ∉ b)
+    (ha : scrubDirective a = .ok ra) (h : scrubDirective b = .error e) :
+    scrub (.str (a ++ ';' :: b)) = .error e := by
+  rw [scrub_str_eq, scrubString_multi hne hb hs, splitOnChar_no_sep ';' b hs', scrubDirectives_cons, ha, h]
+  rfl
+
+/-! ## `scrub` of the canonical colour spellings -/
+
+theorem semi_not_mem_prefix {pfx : Str} (hp : pfx ∈ prefixes) : ';' ∉ pfx := by
+  simp only [prefixes, strLitToList, List.mem_cons, List.not_mem_nil, or_false] at hp
+  rcases hp with rfl | rfl | rfl | rfl | rfl <;> decide
+
+theorem prefix_head {pfx : Str} (hp : pfx ∈ prefixes) (c0 : Char) (X : Str) (h0 : c0 ≠ '[') :
+    (pfx ++ c0 :: X).head? ≠ some '[' := by
+  simp only [prefixes, strLitToList, List.mem_cons, List.not_mem_nil, or_false] at hp
+  rcases hp with rfl | rfl | rfl | rfl | rfl <;> simp [h0]
+
+theorem scrub_rgb3 (pfx : Str) (hp : pfx ∈ prefixes) (r g b : Nat) :
+    scrub (.str (pfx ++ ("rgb(".toList ++ (Py.natStr r ++ ',' :: (Py.natStr g ++ ',' :: (Py.natStr b ++ [')'])))))) =
+      .ok (colorSettings (component (some pfx)) true [min 255 r, min 255 g, min 255 b]) := by
+  have e : "rgb(".toList = ['r','g','b','('] := by simp only [strLitToList]
+  apply scrub_str_rgb _ _ _ (parse_rgb3 pfx hp r g b)
+  · simp [e, semi_not_mem_prefix hp, semi_not_mem_natStr]
+  · simp [e]
+  · rw [e]; exact prefix_head hp 'r' _ (by decide)
+
+theorem scrub_rgb1 (v : Nat) :
+    scrub (.str ("rgb(".toList ++ (Py.natStr v ++ [')']))) =
+      .ok (colorSettings 0 true [(v / 65536) % 256, (v / 256) % 256, v % 256]) := by
+  have e : "rgb(".toList = ['r','g','b','('] := by simp only [strLitToList]
+  apply scrub_str_rgb _ _ _ (parse_rgb1 v)
+  · simp [e, semi_not_mem_natStr]
+  · simp [e]
+  · simp [e]
+
+theorem scrub_color (pfx : Str) (hp : pfx ∈ prefixes) (u : Bool) (n : Nat) :
+    scrub (.str (pfx ++ ("colo".toList ++ ((if u then ['u'] else []) ++ ("r256(".toList ++ (Py.natStr n ++ [')'])))))) =
+      .ok (colorSettings (component (some pfx)) false [n]) := by
+  have e : "colo".toList = ['c','o','l','o'] := by simp only [strLitToList]
+  have e2 : "r256(".toList = ['r','2','5','6','('] := by simp only [strLitToList]
+  apply scrub_str_rgb _ _ _ (parse_color pfx hp u n)
+  · cases u <;> simp [e, e2, semi_not_mem_prefix hp, semi_not_mem_natStr]
+  · simp [e2]
+  · rw [e]; exact prefix_head hp 'c' _ (by decide)
+
+theorem colorSettings_vals (args : List Nat) :
+    colorSettings 0 true args = [joinNats ([38, 2] ++ args)] ∧
+    colorSettings 1 true args = [joinNats ([48, 2] ++ args)] ∧
+    colorSettings 2 true args = [Py.natStr 4, joinNats ([58, 2] ++ args)] ∧
+    colorSettings 3 true args = [Py.natStr 21, joinNats ([58, 2] ++ args)] ∧
+    colorSettings 0 false args = [joinNats ([38, 5] ++ args)] ∧
+    colorSettings 1 false args = [joinNats ([48, 5] ++ args)] ∧
+    colorSettings 2 false args = [Py.natStr 4, joinNats ([58, 5] ++ args)] ∧
+    colorSettings 3 false args = [Py.natStr 21, joinNats ([58, 5] ++ args)] := by
+  have e0 : setupSeq 0 = [38, 5] := by decide
+  have e1 : setupSeq 1 = [38, 2] := by decide
+  have e2 : setupSeq 2 = [48, 5] := by decide
+  have e3 : setupSeq 3 = [48, 2] := by decide
+  have e4 : setupSeq 4 = [58, 5] := by decide
+  have e5 : setupSeq 5 = [58, 2] := by decide
+  have u1 : Gen.paramUnderline = 4 := rfl
+  have u2 : Gen.paramDoubleUnderline = 21 := rfl
+  simp [colorSettings, e0, e1, e2, e3, e4, e5, u1, u2]
+
+
+/-! ## decidable equality of results (for closed examples) -/
+
+instance decEqExcept {ε α : Type} [DecidableEq ε] [DecidableEq α] : DecidableEq (Except ε α)
+  | .ok a, .ok b => if h : a = b then isTrue (by rw [h]) else isFalse (by intro e; injection e with e; exact h e)
+  | .error a, .error b => if h : a = b then isTrue (by rw [h]) else isFalse (by intro e; injection e with e; exact h e)
+  | .ok _, .error _ => isFalse (by intro e; cases e)
+  | .error _, .ok _ => isFalse (by intro e; cases e)
+
+/-- membership in the member table from a Boolean pass -/
+theorem mem_table_of_contains {x : Str × List Str} (h : Gen.formatTable.contains x = true) :
+    x ∈ Gen.formatTable := List.contains_iff_mem.1 h
+
+/-! ## re-association / literal-splitting helpers for the statements of C14 -/
+
+theorem reassoc3 (p a b c : Str) :
+    p ++ a ++ [','] ++ b ++ [','] ++ c ++ [')'] = p ++ (a ++ ',' :: (b ++ ',' :: (c ++ [')']))) := by
+  simp
+
+theorem colorLit :
+    "color256(".toList = [] ++ ("colo".toList ++ ((if false then ['u'] else []) ++ "r256(".toList)) ∧
+    "colour256(".toList = [] ++ ("colo".toList ++ ((if true then ['u'] else []) ++ "r256(".toList)) ∧
+    "fg_color256(".toList = "fg_".toList ++ ("colo".toList ++ ((if false then ['u'] else []) ++ "r256(".toList)) ∧
+    "bg_color256(".toList = "bg_".toList ++ ("colo".toList ++ ((if false then ['u'] else []) ++ "r256(".toList)) ∧
+    "ul_color256(".toList = "ul_".toList ++ ("colo".toList ++ ((if false then ['u'] else []) ++ "r256(".toList)) ∧
+    "dul_color256(".toList = "dul_".toList ++ ("colo".toList ++ ((if false then ['u'] else []) ++ "r256(".toList)) ∧
+    "bg_colour256(".toList = "bg_".toList ++ ("colo".toList ++ ((if true then ['u'] else []) ++ "r256(".toList)) := by
+  simp only [strLitToList]; decide
+
+/-- remaining spellings (hex with `0x`, brackets, spaces), on instances: the string is recognised
+    by `_parse_rgb_string` (evaluated in the kernel) and `scrub` returns exactly its settings -/
+theorem spelled (s : String) (ts : List String)
+    (h : Scrub.parseRgbString s.toList = some (.ok (ts.map String.toList)))
+    (h1 : ';' ∉ s.toList) (h2 : '(' ∈ s.toList) (h3 : s.toList.head? ≠ some '[') :
+    Scrub.scrub (.str s.toList) = .ok (ts.map String.toList) := scrub_str_rgb h1 h2 h3 h
+
+
 end ScrubL
